@@ -1,4 +1,5 @@
 //! n2check: property-based checks of evmar/n2 (see /verif/DESIGN.md).
+mod bb;
 mod engine;
 mod paths;
 mod sim;
@@ -18,6 +19,7 @@ fn make_check(id: &str) -> Option<Box<dyn Check>> {
         return Some(Box::new(c));
     }
     match id {
+        "C16" => return Some(Box::new(bb::c16::C16)),
         "C12" => return Some(Box::new(tot::c12::C12 { dir_ready: false })),
         "C13" => return Some(Box::new(tot::c13::C13)),
         "C15" => return Some(Box::new(tot::c15::C15)),
@@ -41,6 +43,7 @@ fn main() {
         usage();
     }
     match args[1].as_str() {
+        "agent" => bb::agent::main(&args[2..]),
         "run" => {
             let id = args.get(2).cloned().unwrap_or_else(|| usage());
             let tier = match args.get(3).map(|s| s.as_str()).or(std::env::var("VERIF_TIER").ok().as_deref()) {
